@@ -23,7 +23,7 @@ from pathlib import Path
 
 from . import gen, mc, sim, tlc
 from .c12 import digest_report
-from .common import MachineryFailure, Result, bind_repo, seed, subprocess_env
+from .common import REPO, MachineryFailure, Result, bind_repo, seed, subprocess_env
 
 FAIL_READ = 'Reservoir Depth, 9999\n'
 FAIL_CALC = 'Reservoir Model, 5\nReservoir Output File Name, /nonexistent/profile.txt\n'
@@ -42,6 +42,29 @@ def listing(root: Path) -> set:
     return {tuple(p.relative_to(root).parts) for p in root.rglob('*') if p.is_file()}
 
 
+def plant_siblings(folder: Path, text: str):
+    """For every auxiliary file the input names by a relative path (`... File Name, Examples/x.txt`, resolved inside the package): put a
+    file of the same relative name, with different figures, next to the input file.  No entry point may pick it up - or all must."""
+    for ln in text.splitlines():
+        parts = [x.strip() for x in ln.split(',')]
+        if len(parts) < 2 or 'File Name' not in parts[0] or not parts[1] or os.path.isabs(parts[1]):
+            continue
+        packaged = REPO / 'src' / 'geophires_x' / parts[1]
+        if not packaged.is_file():
+            continue
+        out = []
+        for row in packaged.read_text().splitlines():
+            cols = row.split(',')
+            try:
+                cols[-1] = f' {float(cols[-1]) - 19.0!r}'
+            except ValueError:
+                pass
+            out.append(','.join(cols))
+        dest = folder / parts[1]
+        dest.parent.mkdir(parents=True, exist_ok=True)
+        dest.write_text('\n'.join(out) + '\n')
+
+
 def cli_cell(item):
     cell, text = item
     root = Path(tempfile.mkdtemp(prefix='vc20_', dir='/dev/shm' if os.path.isdir('/dev/shm') else None))
@@ -49,6 +72,7 @@ def cli_cell(item):
         (root / d).mkdir(parents=True, exist_ok=True)
     inp = root / 'inp' / 'case.txt'
     inp.write_text(text)
+    plant_siblings(inp.parent, text)
     before = listing(root)
     args = [sys.executable, '-m', 'geophires_x', str(inp)]
     if cell['arg'] == 'relative':
@@ -158,6 +182,7 @@ def client_cell(item):
     root = Path(tempfile.mkdtemp(prefix='vc20c_', dir='/dev/shm' if os.path.isdir('/dev/shm') else None))
     inp = root / 'case.txt'
     inp.write_text(text)
+    plant_siblings(inp.parent, text)
     cwd0, argv0 = os.getcwd(), list(sys.argv)
     logging.disable(logging.CRITICAL)
     sink = io.StringIO()
@@ -302,7 +327,8 @@ def run(tier: str) -> int:
         texts[f'ok{k}'] = base
         texts[f'failread{k}'] = base + FAIL_READ
         texts[f'failcalc{k}'] = base + FAIL_CALC
-    for name in (['example1'] if tier == 'quick' else ['example1', 'example2', 'example3', 'example10_HP', 'example_ITC', 'example13']):
+    # (example5 names its temperature profile by a path relative to the package)
+    for name in (['example1', 'example5'] if tier == 'quick' else ['example1', 'example5', 'example2', 'example3', 'example10_HP', 'example_ITC', 'example13']):
         texts[f'ex:{name}'] = ex[name]
     # inputs that lean on the declared defaults, and the heterogeneous inputs a warmed-up process has served before them
     texts['sparse0'] = SPARSE
